@@ -23,7 +23,8 @@ RULE = ("one run = GFA1 document with links over all orientation pairs / self-li
         "distinct = distinct (link set digest, op) pairs")
 PROBES = ["dup_complement", "dup_complement_before_path", "asym_cigar", "self_link", "hairpin",
           "path_reversed_traversal", "path_before_link", "variant_second_edge", "algebra_checked",
-          "algebra_after_edit"]
+          "algebra_after_edit", "complement_held_early", "complement_of_link_with_placeholders",
+          "complement_of_foreign_link"]
 
 
 def gen(streams, tier, i):
@@ -76,6 +77,18 @@ def gen(streams, tier, i):
     for t in tail:
         pos = sr.randint(0, len(body)) if early else len(body)
         body.insert(pos, t)
+    if cfg.random() < 0.5 and body:
+        # a client takes the complement of a stored link at some point of the delivery (its segments may still be
+        # placeholders then) and keeps it; at the end it compares it with the stored link and offers it to the Gfa
+        body.insert(sr.randint(1, len(body)), {"op": "hold_complement", "i": sr.randrange(50)})
+        body.append({"op": "add_held"})
+    if cfg.random() < 0.3 and links:
+        # the complement of a link of *another* Gfa (same segment names) is offered
+        f = hr.choice(links).split("\t")[:6]
+        if hr.random() < 0.6:
+            f[hr.choice([2, 4])] = hr.choice("+-")
+            f[5] = hr.choice([f[5], "2M1I", "5M"])
+        body.append({"op": "foreign_complement", "line": "\t".join(f)})
     ops += body
     ops.append({"op": "flush"})
     ops.append({"op": "algebra"})
@@ -123,6 +136,19 @@ def algebra(g, st):
                                      "%r vs its complement: is_complement,is_eql,is_same = %r" % (pos, r1))
         if not (l.is_same(l) and l.is_eql(l)):
             raise core.Violation("equivalence-wrong", "%r is not the same as itself" % (pos,))
+        if pos[4] != "*":
+            # the same ends with an unspecified overlap: *compatible* with l (a search finds it), but neither the
+            # same link nor its complement
+            for form in (a, b):
+                o2 = core.call(gfapy.Line, "\t".join(["L"] + list(form[:4]) + ["*"]), vlevel=l.vlevel)
+                if not o2.ok:
+                    continue
+                st.count("oracle.star_variant")
+                for (x, y) in ((l, o2.value), (o2.value, l)):
+                    r = core.call(lambda: (x.is_same(y), x.is_complement(y), x.is_eql(y)))
+                    if r.ok and r.value != (False, False, False):
+                        raise core.Violation("equivalence-wrong", "%r vs %r (overlap unspecified): is_same,is_complement,"
+                                             "is_eql = %r" % (pos, ob.line_text(o2.value), r.value), what="star")
         edited_algebra(l, pos, st)
 
 
@@ -195,6 +221,83 @@ def run(scn, st):
         if k == "algebra":
             if g.version == "gfa1":
                 algebra(g, st)
+            continue
+        if k == "hold_complement":
+            ls = stored_links(g) if g.version == "gfa1" else []
+            if ls:
+                src = ls[op["i"] % len(ls)]
+                c = core.call(src.complement)
+                if c.ok:
+                    w.held_c = (c.value, ob.line_text(src))
+                    st.count("probe.complement_held_early")
+                    if any(x.virtual for x in (src.from_segment, src.to_segment) if isinstance(x, gfapy.Line)):
+                        st.count("probe.complement_of_link_with_placeholders")
+            continue
+        if k == "add_held":
+            held = getattr(w, "held_c", None)
+            if held is None or g.version != "gfa1" or m.unspecified:
+                continue
+            c, srctext = held
+            src = [l for l in stored_links(g) if ob.line_text(l) == srctext]
+            if not src:
+                continue
+            st.count("oracle.held_complement")
+            for (x, y) in ((src[0], c), (c, src[0])):
+                r1 = core.call(lambda: (x.is_complement(y), x.is_eql(y)))
+                r2 = core.call(lambda: (x.is_complement(y), x.is_eql(y)))
+                if not (r1.ok and r2.ok) or r1.value != r2.value or r1.value != (True, True):
+                    raise core.Violation("equivalence-wrong", "the complement of %r, taken earlier during the delivery, "
+                                         "is no longer recognised as its complement: %r" %
+                                         (srctext, r1.value if r1.ok else r1.excname), when="held")
+            pre = ob.observe(g)
+            out = core.call(g.add_line, c)
+            if not out.ok:
+                raise core.Violation("complement-rejected", "the complement of the stored %r (taken earlier) raised %s: %s" %
+                                     (srctext, out.excname, str(out.exc)[:200]), exc=out.excname, frame=out.frame)
+            post = ob.observe(g)
+            if post != pre:
+                from .c08 import diff_obs
+                raise core.Violation("complement-changed-gfa", "adding the complement of the stored %r (taken earlier "
+                                     "during the delivery) changed the Gfa: %s" % (srctext, diff_obs(pre, post)), when="held")
+            continue
+        if k == "foreign_complement":
+            if g.version != "gfa1" or m.unspecified:
+                continue
+            f = op["line"].split("\t")
+            g2 = core.call(gfapy.Gfa, ["S\t%s\t*" % f[1]] + (["S\t%s\t*" % f[3]] if f[3] != f[1] else []) + [op["line"]],
+                           version="gfa1", vlevel=g.vlevel)
+            if not g2.ok or not g2.value.dovetails:
+                continue
+            c = core.call(g2.value.dovetails[0].complement)
+            if not c.ok:
+                continue
+            ctext = ob.line_text(c.value)
+            res = m.copy().add_text(ctext)
+            nlinks = len(stored_links(g))
+            pre = ob.observe(g)
+            out = core.call(g.add_line, c.value)
+            st.count("probe.complement_of_foreign_link")
+            st.count("oracle.foreign_complement")
+            if res == "ok":
+                m.add_text(ctext)
+                if not out.ok:
+                    raise core.Violation("different-link-rejected", "%r (the complement of a link of another Gfa) is no "
+                                         "edge of this Gfa but raised %s" % (ctext, out.excname), exc=out.excname, frame=out.frame)
+                if len(stored_links(g)) != nlinks + 1:
+                    raise core.Violation("different-link-not-stored", "%r (the complement of a link of another Gfa) was "
+                                         "accepted but the stored links went %d -> %d" % (ctext, nlinks, len(stored_links(g))))
+                try:
+                    from .. import inv
+                    inv.closed_symmetric(g)
+                except Exception as b:
+                    raise core.Violation("foreign-lines-reachable", "after adding %r (taken from another Gfa): %s" %
+                                         (ctext, getattr(b, "detail", b)))
+            elif res == "dup-complement":
+                if not out.ok or ob.observe(g) != pre:
+                    raise core.Violation("complement-changed-gfa", "%r equals or complements a stored link; adding it %s" %
+                                         (ctext, "raised " + out.excname if not out.ok else "changed the Gfa"), when="foreign")
+            else:
+                m.unspecified = "merely compatible link offered"
             continue
         if k in ("add", "flush"):
             out = w.apply(dict(op)) if k == "flush" else w.apply({"op": "add", "line": op["line"], "as": op.get("as", "str")})
